@@ -70,9 +70,9 @@ impl RngCore for ScriptRng {
 }
 
 #[derive(Clone, Debug, PartialEq)]
-struct FState {
-    z: Vec<f64>,
-    n: Vec<f64>,
+pub(crate) struct FState {
+    pub z: Vec<f64>,
+    pub n: Vec<f64>,
 }
 
 fn canon(s: &FState) -> Vec<u8> {
@@ -87,7 +87,7 @@ fn state_of(m: &Ftrl<f64>) -> FState {
 }
 
 /// per-coordinate closed form of the FTRL-proximal weight
-fn prox(z: f64, n: f64, c: &FtrlCase) -> f64 {
+pub(crate) fn prox(z: f64, n: f64, c: &FtrlCase) -> f64 {
     if z.abs() <= c.l1 {
         0.0
     } else {
@@ -106,16 +106,16 @@ fn sigmoid35(t: f64) -> f64 {
     }
 }
 
-struct RefStep {
-    z: Vec<f64>,
-    n: Vec<f64>,
-    tol_z: Vec<f64>,
-    tol_n: Vec<f64>,
+pub(crate) struct RefStep {
+    pub z: Vec<f64>,
+    pub n: Vec<f64>,
+    pub tol_z: Vec<f64>,
+    pub tol_n: Vec<f64>,
     /// z as it would be if the proximal weights were recomputed AFTER adding the gradient
     z_new_weights: Vec<f64>,
 }
 
-fn ref_step(prev: &FState, x: &[Vec<f64>], y: &[bool], c: &FtrlCase) -> Option<RefStep> {
+pub(crate) fn ref_step(prev: &FState, x: &[Vec<f64>], y: &[bool], c: &FtrlCase) -> Option<RefStep> {
     let p = prev.z.len();
     let w: Vec<f64> = (0..p).map(|j| prox(prev.z[j], prev.n[j], c)).collect();
     if w.iter().any(|v| !v.is_finite()) {
